@@ -65,6 +65,30 @@ func readRRReportsErr(c *Ctx, r *Report, rule string) {
 				}
 			}
 		}
+		if !ok && isNilConst(rp.Results[1]) {
+			// `if err := zp.Err(); err != nil { return rr, err }; return rr, nil`: nil where Err() is known to be nil
+			for _, f := range rp.factsOf(fn) {
+				b, isB := f.Atom.(*ssa.BinOp)
+				if !isB || (b.Op != token.EQL && b.Op != token.NEQ) {
+					continue
+				}
+				x, y := b.X, b.Y
+				if isNilConst(x) {
+					x, y = y, x
+				}
+				call, isCall := x.(*ssa.Call)
+				if !isNilConst(y) || !isCall || calleeNameSSA(&call.Call) != "(ZoneParser).Err" {
+					continue
+				}
+				if (b.Op == token.EQL) == f.Holds {
+					for _, nx := range callsIn(fn, "(ZoneParser).Next") {
+						if nx.Block() == call.Block() && precedes(nx, call) || nx.Block().Dominates(call.Block()) && nx.Block() != call.Block() {
+							ok = true
+						}
+					}
+				}
+			}
+		}
 		if !ok {
 			bad = append(bad, fmt.Sprintf("%s returns %s as its error", c.pos(rp.Pos), describeValue(rp.Results[1])))
 		}
@@ -182,52 +206,124 @@ func tsigVerifiedWhenPresent(c *Ctx, r *Report, rule string) {
 		return
 	}
 	r.fn("Conn.ReadMsg")
+	isVerify := func(in ssa.Instruction) bool {
+		cl, isCall := in.(*ssa.Call)
+		if !isCall {
+			return false
+		}
+		nm := calleeNameSSA(&cl.Call)
+		return nm == "TsigVerifyWithProvider" || nm == "TsigVerify" || nm == "tsigVerify"
+	}
+	// tsigTests: the tests of IsTsig()'s result against nil in f, with the edge on which it is non-nil
+	type tsigTest struct {
+		iff    *ssa.If
+		nonNil *ssa.BasicBlock
+	}
+	testsIn := func(f *ssa.Function) []tsigTest {
+		var out []tsigTest
+		for _, b := range f.Blocks {
+			iff, ok := b.Instrs[len(b.Instrs)-1].(*ssa.If)
+			if !ok {
+				continue
+			}
+			bin, ok := iff.Cond.(*ssa.BinOp)
+			if !ok || (bin.Op != token.NEQ && bin.Op != token.EQL) {
+				continue
+			}
+			x, y := bin.X, bin.Y
+			if isNilConst(x) {
+				x, y = y, x
+			}
+			if !isNilConst(y) {
+				continue
+			}
+			fromTsig := false
+			for v := range sliceOf(x) {
+				if cl, isCall := v.(*ssa.Call); isCall && calleeNameSSA(&cl.Call) == "(Msg).IsTsig" {
+					fromTsig = true
+				}
+			}
+			if !fromTsig {
+				continue
+			}
+			nonNil := b.Succs[0]
+			if bin.Op == token.EQL {
+				nonNil = b.Succs[1]
+			}
+			out = append(out, tsigTest{iff, nonNil})
+		}
+		return out
+	}
 	n := 0
 	var bad []string
-	for _, b := range fn.Blocks {
-		iff, ok := b.Instrs[len(b.Instrs)-1].(*ssa.If)
-		if !ok {
-			continue
-		}
-		bin, ok := iff.Cond.(*ssa.BinOp)
-		if !ok || (bin.Op != token.NEQ && bin.Op != token.EQL) {
-			continue
-		}
-		x, y := bin.X, bin.Y
-		if isNilConst(x) {
-			x, y = y, x
-		}
-		if !isNilConst(y) {
-			continue
-		}
-		fromTsig := false
-		for v := range sliceOf(x) {
-			if cl, isCall := v.(*ssa.Call); isCall && calleeNameSSA(&cl.Call) == "(Msg).IsTsig" {
-				fromTsig = true
+	verifies := map[*ssa.Function]bool{} // helpers that test IsTsig and verify on the non-nil edge, on every path
+	for _, f := range localCallees(c, fn, 2) {
+		ts := testsIn(f)
+		good := len(ts) > 0
+		for _, t := range ts {
+			n++
+			okPass, at := mustPass(f, t.nonNil, -1, isVerify)
+			if !okPass {
+				good = false
+				where := ""
+				if at != nil && len(at.Instrs) > 0 {
+					where = c.pos(at.Instrs[len(at.Instrs)-1].Pos())
+				}
+				bad = append(bad, fmt.Sprintf("from the test at %s a return (%s) is reached without the verification", c.pos(t.iff.Cond.Pos()), where))
 			}
 		}
-		if !fromTsig {
-			continue
-		}
-		n++
-		nonNil := b.Succs[0]
-		if bin.Op == token.EQL {
-			nonNil = b.Succs[1]
-		}
-		okPass, at := mustPass(fn, nonNil, -1, func(in ssa.Instruction) bool {
-			cl, isCall := in.(*ssa.Call)
-			if !isCall {
+		if good && f != fn {
+			// the helper looks at the TSIG on every path?
+			if okAll, _ := mustPass(f, f.Blocks[0], -1, func(in ssa.Instruction) bool {
+				for _, t := range ts {
+					if in == ssa.Instruction(t.iff) {
+						return true
+					}
+				}
 				return false
+			}); okAll {
+				verifies[f] = true
 			}
-			nm := calleeNameSSA(&cl.Call)
-			return nm == "TsigVerifyWithProvider" || nm == "TsigVerify" || nm == "tsigVerify"
-		})
-		if !okPass {
-			where := ""
-			if at != nil && len(at.Instrs) > 0 {
-				where = c.pos(at.Instrs[len(at.Instrs)-1].Pos())
+		}
+	}
+	// where the test lives in a helper, ReadMsg reaches the helper on every path behind a successful Unpack
+	if len(testsIn(fn)) == 0 {
+		reached := false
+		for _, b := range fn.Blocks {
+			iff, ok := b.Instrs[len(b.Instrs)-1].(*ssa.If)
+			if !ok {
+				continue
 			}
-			bad = append(bad, fmt.Sprintf("from the test at %s a return (%s) is reached without the verification", c.pos(iff.Cond.Pos()), where))
+			bin, ok := iff.Cond.(*ssa.BinOp)
+			if !ok || (bin.Op != token.NEQ && bin.Op != token.EQL) {
+				continue
+			}
+			x, y := bin.X, bin.Y
+			if isNilConst(x) {
+				x, y = y, x
+			}
+			call, isCall := x.(*ssa.Call)
+			if !isNilConst(y) || !isCall || calleeNameSSA(&call.Call) != "(Msg).Unpack" {
+				continue
+			}
+			okEdge := b.Succs[1]
+			if bin.Op == token.EQL {
+				okEdge = b.Succs[0]
+			}
+			reached = true
+			if okPass, _ := mustPass(fn, okEdge, -1, func(in ssa.Instruction) bool {
+				if ci, isCI := in.(ssa.CallInstruction); isCI {
+					if g := ci.Common().StaticCallee(); g != nil && verifies[g] {
+						return true
+					}
+				}
+				return false
+			}); !okPass {
+				bad = append(bad, fmt.Sprintf("behind the successful Unpack at %s a return is reached without the function that looks at the TSIG", c.pos(call.Pos())))
+			}
+		}
+		if !reached {
+			bad = append(bad, "no test of Unpack's error found in front of the TSIG step")
 		}
 	}
 	r.check(n > 0 && len(bad) == 0, rule, "Conn.ReadMsg", c.pos(fn.Pos()), "IsTsig() != nil => TsigVerifyWithProvider", "%s: a reply that carries a TSIG is handed to the caller with a nil error although its MAC was never looked at (any forged reply of that shape is accepted)", strings.Join(bad, "; "))
